@@ -36,10 +36,16 @@ def field_attrs(rename, spelling):
             "extra": ["/// doc", f'#[serde(skip_serializing_if = "Option::is_none", {r})]', "#[allow(dead_code)]"]}[spelling]
 
 
+LAYOUTS = {"two": ["S", "N"], "then_word": ["S", "N", "tail"], "word_first": ["head", "S", "N"], "subject_last": ["N", "S"],
+           "word_last_only": ["S", "tail"], "between_words": ["head", "S", "tail"]}
+
+
 def source(case):
     ident = rust_ident(case["ident"])
     fa = field_attrs(case["rename"], case["spelling"])
-    fields = "".join(f"        {a}\n" for a in fa) + f"        {ident}: Option<u32>,\n        plain_one: String,\n"
+    subject = "".join(f"        {a}\n" for a in fa) + f"        {ident}: Option<u32>,\n"
+    member = {"S": subject, "N": "        plain_one: String,\n", "head": "        head: bool,\n", "tail": "        tail: bool,\n"}
+    fields = "".join(member[m] for m in LAYOUTS[case.get("layout", "two")])          # MC_C01!LayoutOf
     rule = case["rule"]
     if case["kind"] == "struct":
         stacked = "#[serde(deny_unknown_fields)]\n" if case["spelling"] in ("split", "extra") else ""
@@ -96,9 +102,14 @@ def judge_obs(chk, lang, case, members, expected_keys, prefix=""):
     if len(keys) != len(expected_keys):
         chk.mismatch(signature(lang, case, "member-count"), f"{lang}: members {keys}, required {expected_keys}", {"case": case, "lang": lang, "prefix": prefix}, expected_keys, keys)
         return
-    for which, (k, e) in zip(("field", "neighbour"), zip(keys, expected_keys)):
+    names = {"S": "field", "N": "neighbour", "head": "neighbour", "tail": "neighbour"}
+    for which, (k, e) in zip([names[m] for m in LAYOUTS[case.get("layout", "two")]], zip(keys, expected_keys)):
         if k != e:
-            chk.mismatch(signature(lang, case, "key!=serde", which), f"{lang}: {which} of {case}: JSON key `{k}`, serde uses `{e}`",
+            sig = signature(lang, case, "key!=serde", which)
+            # the layout is named only when it is necessary: the same case in the plain two-member layout (judged first) conforms
+            if case.get("layout", "two") != "two" and sig not in chk.mismatches:
+                sig += "/layout=" + case["layout"]
+            chk.mismatch(sig, f"{lang}: {which} of {case}: JSON key `{k}`, serde uses `{e}`",
                          {"case": case, "lang": lang, "prefix": prefix}, e, k)
 
 
@@ -126,7 +137,7 @@ def run_cases(chk, cases, prefix_cfgs):
                 ms = members_of(lang0, r["obs"], case, prefix if lang0 in ("swift", "kotlin") else "")
                 if exp is not None:
                     judge_obs(chk, lang, case, ms, exp, prefix)
-                if ms and len(ms) == 2:
+                if ms and len(ms) == 2 and case.get("layout", "two") == "two":
                     ident = case["ident"][2:] if case["ident"].startswith("r#") else case["ident"]
                     for m, (idt, ren) in zip(ms, ((ident, case["rename"]), ("plain_one", "none"))):
                         events.append({"lang": lang0, "ident": list(idt), "rename": [] if ren in ("none", None) else list(ren), "rule": case["rule"], "key": list(m["key"]),
@@ -147,7 +158,7 @@ def run(chk):
     res = common.run_tlc("MC_C01", cfg="MC_C01_thorough" if thorough else "MC_C01_quick", workers=4, timeout=900)
     chk.add_tlc("MC_C01", res)
     chk.exhaustive = True
-    cases = [(c["case"], c["keys"]) for c in res.replays]
+    cases = sorted([(c["case"], c["keys"]) for c in res.replays], key=lambda ck: ck[0].get("layout", "two") != "two")
     if not cases:
         raise ToolError("no cases")
     chk.sample({"case": cases[len(cases) // 3][0], "required_keys": cases[len(cases) // 3][1], "source": source(cases[len(cases) // 3][0])})
